@@ -58,6 +58,11 @@ type halfEdgeRecord struct {
 	// in the input geometries.
 	srcFace [2]bool
 
+	// srcFaceCount is the number of polygons in the input geometries that
+	// have their interior immediately on this side of the edge. It can exceed
+	// 1 when the members of a GeometryCollection operand overlap.
+	srcFaceCount [2]int
+
 	// inSet encodes whether or not this edge is (explicitly or implicitly)
 	// part of the input geometry for each operand.
 	inSet [2]bool
